@@ -1,7 +1,7 @@
 """C09 part: loss detection (`loss::detect`), RTT estimator, PTO state machine, recovery-manager model."""
 from vlib import *
 
-PROP_MODULES = ["QuicProofs.Props.C09Recovery"]
+PROP_MODULES = ["QuicProofs.Props.C09Recovery", "QuicProofs.Props.C09RecoveryManager"]
 BRIDGES = ["QuicProofs.Bridge.Recovery"]
 
 
